@@ -17,7 +17,7 @@ RULE = ("cubes with 1..k sub-cubes, both cube types; the callback raises an Exce
         "seeded line-level scheduler, real ThreadPool under a hard timeout); checked: calculate raises (one of) the raised "
         "exception object(s), returns when nothing raises, the callback is consulted at most once per sub-cube (exactly "
         "once without a raise; i+1 times in serial mode), and a following uninterrupted calculate on the SAME cube and "
-        "aggregate-function objects - serial, and again in the mode of the interrupted call with a counting callback - equals a fresh evaluation bit-for-bit and consults the callback once per sub-cube; every kind of exception once per cube and mode (StopIteration and a subclass, StopAsyncIteration, LookupError, ArithmeticError, and the non-Exception ones: a BaseException subclass, GeneratorExit, asyncio.CancelledError, SystemExit), serial and through the permuting pool. Non-trivial = the raise happens after at least "
+        "aggregate-function objects - serial, and again in the mode of the interrupted call with a counting callback - equals a fresh evaluation bit-for-bit and consults the callback once per sub-cube; the callback handed over as a function, a bound method, a functools.partial or a callable object whose truth value is False; every kind of exception once per cube and mode (StopIteration and a subclass, StopAsyncIteration, LookupError, ArithmeticError, and the non-Exception ones: a BaseException subclass, GeneratorExit, asyncio.CancelledError, SystemExit), serial and through the permuting pool. Non-trivial = the raise happens after at least "
         "one completed sub-cube; distinct by (cube, mode, raising set)")
 ASSUMPTIONS = ["exceptions raised by the callback are compared by identity; real-ThreadPool runs with non-Exception "
                "interrupts are limited to one per run (a hang costs the 25 s timeout)"]
@@ -43,7 +43,12 @@ def exception_types():
             asyncio.CancelledError, SystemExit]
 
 
-def make_callback(raising, exc_type, log):
+CALLBACK_KINDS = ["function", "function", "falsy_callable", "bound_method", "partial"]
+
+
+def make_callback(raising, exc_type, log, kind="function"):
+    """the callback in the shapes an application may hand over: a function, a bound method, a functools.partial, and a
+    callable object whose truth value is False (an empty container that is callable)"""
     def cb():
         i = len(log)
         log.append(i)
@@ -51,6 +56,19 @@ def make_callback(raising, exc_type, log):
             e = exc_type("interrupt at invocation %d" % i)
             raising[i] = e
             raise e
+    if kind == "falsy_callable":
+        class Quiet(list):
+            def __call__(self):
+                return cb()
+        return Quiet()
+    if kind == "bound_method":
+        class Holder:
+            def check(self):
+                return cb()
+        return Holder().check
+    if kind == "partial":
+        import functools
+        return functools.partial(lambda tag: cb(), "x")
     return cb
 
 
@@ -60,8 +78,11 @@ def one_mode(ctx, kind, case, nsub, mode, raising_idx, desc, exc_type=Stop):
     funcs = [f for _, f in fs]
     log = []
     raising = {i: None for i in raising_idx}
-    cube.check_interrupt = make_callback(raising, exc_type, log)
-    d = dict(desc, mode=mode if isinstance(mode, str) else "pool", raising=sorted(raising_idx), exc=exc_type.__name__)
+    cb_kind = ctx.rng.choice(CALLBACK_KINDS)
+    ctx.hit("callback:" + cb_kind)
+    cube.check_interrupt = make_callback(raising, exc_type, log, cb_kind)
+    d = dict(desc, mode=mode if isinstance(mode, str) else "pool", raising=sorted(raising_idx), exc=exc_type.__name__,
+             callback=cb_kind)
     ctx.case(d, nontrivial=bool(raising_idx) and min(raising_idx) > 0)
 
     def call():
@@ -109,7 +130,7 @@ def one_mode(ctx, kind, case, nsub, mode, raising_idx, desc, exc_type=Stop):
         return
     # ... and once more in the mode of the interrupted call, with a counting callback that never raises
     log2 = []
-    cube.check_interrupt = make_callback({}, exc_type, log2)
+    cube.check_interrupt = make_callback({}, exc_type, log2, ctx.rng.choice(CALLBACK_KINDS))
     try:
         if mode == "serial":
             again2 = c16.flat_bytes(cube.calculate(funcs))
